@@ -773,8 +773,19 @@ def check_equal_bounds(ctx: Ctx) -> None:
     c02.check_norm_cache(_Prefixed(ctx, "1.9-current-bounds/"), view)
 
 
+def check_approximated_gradients(ctx: Ctx) -> None:
+    """1.11: when the derivatives are approximated (`differentiation_method`), the Jacobian returned and recorded is the
+    finite-difference quotient of the function's own values, serial or parallel alike (rule group 16.2 of C16: the
+    approximators are reached from ProblemFunction through the gradient approximator factory)."""
+    from gv.props import c16
+    from gv.props.c12 import _Prefixed
+
+    c16.check_twins(_Prefixed(ctx, "1.11-approximated/"))
+
+
 def run(ctx: Ctx) -> None:
     check_equal_bounds(ctx)
+    check_approximated_gradients(ctx)
     roles = compute_roles(ctx)
     memo = {m: r for m, r in roles.items() if r["db"]}
     ctx.need(len(memo) == 4, f"expected four memoising compute methods, found {sorted(memo)}")
